@@ -14,13 +14,22 @@ def _setter(q, via_device):
     return lambda value: q.device.set(q.description.name, value, retries=1)
 
 
-async def _probe(tbl, idx, raw, lo, hi, other, via_device=False):
-    """display of raw / bounds, and the raw value transmitted when the displayed value is written back."""
+def _report(par, triple):
+    """a further controller report for an existing parameter (what the device handlers do with it)"""
+    from pyplumio.helpers.parameter import ParameterValues
+    par.update(ParameterValues(*triple))
+
+
+async def _probe(tbl, idx, raw, lo, hi, other, via_device=False, prior=None):
+    """display of raw / bounds, and the raw value transmitted when the displayed value is written back.
+    prior = raw bounds of an EARLIER report carrying the same raw value (the parameter object has a history)."""
     if tbl == 5:
         p, queue, sc, rc, dec = await param_impl.make_schedule_param(idx, [raw, lo, hi])
         q, queue2, sc2, rc2, dec2 = await param_impl.make_schedule_param(idx, [other, 0, 65535])
     else:
-        p, queue, sc, rc, dec = param_impl.make_param(tbl, idx, [raw, lo, hi], True, 0)
+        p, queue, sc, rc, dec = param_impl.make_param(tbl, idx, [raw, lo, hi] if prior is None else [raw, prior[0], prior[1]], True, 0)
+        if prior is not None:
+            _report(p, [raw, lo, hi])
         q, queue2, sc2, rc2, dec2 = param_impl.make_param(tbl, idx, [other, 0, 65535], True, 0)
     shown, smin, smax = p.value, p.min_value, p.max_value
     import asyncio
@@ -37,15 +46,18 @@ async def _probe(tbl, idx, raw, lo, hi, other, via_device=False):
     return shown, smin, smax, sent
 
 
-async def _accept(tbl, idx, w, blo, bhi, held, via_device=False):
-    """is the displayed form of raw value w accepted by a parameter held with raw bounds [blo, bhi]?  -> transmitted raws / 'refused'"""
+async def _accept(tbl, idx, w, blo, bhi, held, via_device=False, prior=None):
+    """is the displayed form of raw value w accepted by a parameter held with raw bounds [blo, bhi]?  -> transmitted raws / 'refused'
+    prior = raw bounds of an earlier report with the same held value"""
     import asyncio
     if tbl == 5:
         src, *_ = await param_impl.make_schedule_param(idx, [w, 0, 65535])
         q, queue2, sc2, rc2, dec2 = await param_impl.make_schedule_param(idx, [held, blo, bhi])
     else:
         src, *_ = param_impl.make_param(tbl, idx, [w, 0, 65535], True, 0)
-        q, queue2, sc2, rc2, dec2 = param_impl.make_param(tbl, idx, [held, blo, bhi], True, 0)
+        q, queue2, sc2, rc2, dec2 = param_impl.make_param(tbl, idx, [held, blo, bhi] if prior is None else [held, prior[0], prior[1]], True, 0)
+        if prior is not None:
+            _report(q, [held, blo, bhi])
     shown = src.value
     task = asyncio.ensure_future(_setter(q, via_device)(shown))
     for _ in range(8):
@@ -106,7 +118,7 @@ class C17(Prop):
     prop_file = "Props/C17.v"
     rule = ("every number description of every table x raw values (quick: boundaries + random sample, all 256 for the scaled 1-byte "
             "descriptions, 512 for 2-byte; thorough: all 256 / 8192): displayed value, displayed bounds (bit-exact against the PrimFloat model "
-            "evaluated by vm_compute) and the raw value transmitted when the displayed value is written back.  Non-trivial = multiplier != 1 or "
+            "evaluated by vm_compute) and the raw value transmitted when the displayed value is written back; half of the parameter objects have a history (an earlier report carrying the same raw value with other bounds).  Non-trivial = multiplier != 1 or "
             "offset != 0 or raw > 0; distinct by (description, raw).")
     assumptions = ["theorem: exhaustive kernel sweep (vm_compute) over all raw values of all distinct scalings, bound 256^size in the statement",
                    "Python round()/int() on floats are modelled bit-exactly with PrimFloat and validated here on every run"]
@@ -142,7 +154,9 @@ class C17(Prop):
                         return x if (scaled and 0 <= x <= hi and x != r and rng.random() < 0.6) else (r + 1) % (hi + 1)
                     cases.append({"kind": "%s:%s" % (name, "scaled" if scaled else "plain"), "tbl": tbl, "idx": idx, "raw": raw,
                                   "lo": rng.choice([0, raw]), "hi": rng.choice([hi, raw]), "other": held_for(raw),
-                                  "acc": [w, blo, bhi, held_for(w)], "via_device": rng.random() < 0.5})
+                                  "acc": [w, blo, bhi, held_for(w)], "via_device": rng.random() < 0.5,
+                                  # half of the parameter objects have a history: an earlier report with the same value and other bounds
+                                  "prior": None if tbl == 5 or rng.random() < 0.5 else sorted([rng.choice(marks), rng.choice(marks)])})
         # two parameters reported with identical bytes: writing one must not change what the other displays (nor what either
         # displays for the same report later)
         for product in (0, 1):
@@ -166,11 +180,12 @@ class C17(Prop):
             other_now, first_later, other_later, before = vloop.run(_pair, c["tbl"], c["idx"], c["idx2"], c["raw"], c["raw2"], c["lo"], c["hi"], payload)
             return {"pair": [coqeval.float_key(float(other_now)), coqeval.float_key(float(first_later)), coqeval.float_key(float(other_later))],
                     "_stable": other_now == before[1] and first_later == before[0] and other_later == before[1]}
-        shown, smin, smax, sent = vloop.run(_probe, c["tbl"], c["idx"], c["raw"], c["lo"], c["hi"], c["other"], c.get("via_device", False))
+        shown, smin, smax, sent = vloop.run(_probe, c["tbl"], c["idx"], c["raw"], c["lo"], c["hi"], c["other"], c.get("via_device", False),
+                                            c.get("prior"))
         out = {"display": coqeval.float_key(float(shown)), "min": coqeval.float_key(float(smin)),
                "max": coqeval.float_key(float(smax)), "sent": sent}
         if "acc" in c:
-            out["accept"] = vloop.run(_accept, c["tbl"], c["idx"], *c["acc"], c.get("via_device", False))
+            out["accept"] = vloop.run(_accept, c["tbl"], c["idx"], *c["acc"], c.get("via_device", False), c.get("prior"))
         return out
 
     def model_many(self, cases):
